@@ -300,7 +300,7 @@ def _qcall(ev, metrics, sess, R, rt, cache_kind):
     does not finish within the budget and a call that changes the caller's curve are reported as 'exc' texts
     (the definition promises a number for this input and the evaluator has no business writing to the curve)."""
     from . import budget
-    r = _try(budget.run, budget.limit_for(len(sess.points)) + 50 * len(R), _call, ev, metrics, sess, R, rt, cache_kind)
+    r = _try(budget.run, 2000000 + budget.limit_for(len(sess.points)) + 50 * len(R), _call, ev, metrics, sess, R, rt, cache_kind)
     if r[0] == 'exc':
         return r
     st, v = r[1]
@@ -326,6 +326,16 @@ def execute(plan, stats=None, check=True, want_events=True):
     """Run a plan.  Returns dict(events, violation, stats).  `violation` is None or a dict with
     oracle id, step index and detail; the first failing oracle ends the run."""
     ev, metrics, rdp = _libs()
+    try:
+        import multiprocessing as _mp
+        import os as _os
+        from . import core as _core
+        _mp.parent_process = lambda: None          # the run looks like the importing main process to library code
+        _mp.current_process().name = 'MainProcess'
+        if _core.IMPORT_PID is not None:
+            _os.getpid = lambda: _core.IMPORT_PID
+    except Exception:
+        pass
     st = stats if stats is not None else {}
 
     def bump(k, d=1):
